@@ -244,6 +244,9 @@ func crashCase(env *core.Env, idx int, prop, bias string) *core.CaseResult {
 		limit = 2000
 		if conc || p.BigTxnRows > 0 || p.PreEpochs > 0 {
 			limit = 300 // restarts of these classes redo megabytes of log / large images: fewer, evenly spread crash points per history
+			if !conc {
+				limit = 150
+			}
 		}
 	}
 	chosen := map[int]bool{}
